@@ -1207,9 +1207,10 @@ func gen(seed uint64, tier string) {
 		b := &geom.Bounds{Min: pt(x0, y0), Max: pt(x0+r.Range(0, 40), y0+r.Range(0, 40))}
 		fmt.Fprintf(out, "bnd g %s\n", G(b))
 	}
-	genGuardEdges(out)     // magnitudes at the edges of distPointToSegment's range guard (gc.go)
-	genGC(out, seed, tier) // op.Area / op.Length on collections (gc.go), own random stream
-	genOp(out, seed, tier) // op.Within / op.FixOrientation lines (op.go), own random stream
+	genExtremes(out, seed, tier) // centroids of polygons whose whole extent is subnormal / near the top of the range (gc.go)
+	genGuardEdges(out)           // magnitudes at the edges of distPointToSegment's range guard (gc.go)
+	genGC(out, seed, tier)       // op.Area / op.Length on collections (gc.go), own random stream
+	genOp(out, seed, tier)       // op.Within / op.FixOrientation lines (op.go), own random stream
 }
 
 // ---------- implementation stage ----------
